@@ -76,6 +76,6 @@ STATELESS = [
     ("html5lib.filters.sanitizer", "Filter", ("C09", "C10")),
     ("html5lib.filters.optionaltags", "Filter", ("C13", "C07")),
     ("html5lib.filters.whitespace", "Filter", ("C17",)),
-    ("html5lib.filters.alphabeticalattributes", "Filter", ("C18",)),
+    ("html5lib.filters.alphabeticalattributes", "Filter", ("C18", "C07")),
     ("html5lib._ihatexml", "InfosetFilter", ()),
 ]
